@@ -66,6 +66,7 @@ def run(prog: Program, rep: Report):
     r2_numerals(prog, rep)
     r3_arg_sort(prog, rep)
     r4_window_scan(prog, rep)
+    r5_multiset(prog, rep)
 
 
 def r2_numerals(prog: Program, rep: Report):
@@ -193,3 +194,28 @@ def r4_window_scan(prog: Program, rep: Report):
                      scenario="search_sub_seq([1,2,1,2], [1,2,1,2,1,2]) returns [(0, 4)] instead of [(0, 4), (2, 6)]", line=jumps[0].lineno)
         else:
             rep.unrec("C19.R4", f, "every-offset", "the scan is not the plain loop over all offsets")
+
+
+def r5_multiset(prog: Program, rep: Report):
+    rep.rule("C19.R5", "compare_pos_in_iterables compares multisets: the recognised shapes are the remove-loop over a list copy "
+             "(False on ValueError, True iff nothing is left) and Counter equality; a comparison through set() ignores "
+             "multiplicities", floor=1)
+    f = prog.func("compare_pos_in_iterables", GENERIC_MOD)
+    rep.fn(f)
+    a, b = f.params[0], f.params[1]
+    sets = [n for n in ast.walk(f.node) if isinstance(n, ast.Call) and src(n.func) in ("set", "frozenset") and n.args
+            and any(isinstance(x, ast.Name) and x.id in (a, b) for x in ast.walk(n.args[0]))]
+    if sets:
+        rep.viol("C19.R5", f, "multiset", f"`{src(sets[0])}` compares the inputs as sets: equal supports with different multiplicities "
+                 f"are reported equal", scenario="compare_pos_in_iterables([1, 1, 2], [1, 2, 2]) returns True", line=sets[0].lineno)
+        return
+    removes = [n for n in ast.walk(f.node) if isinstance(n, ast.Call) and isinstance(n.func, ast.Attribute) and n.func.attr == "remove"]
+    handler = any(isinstance(n, ast.ExceptHandler) and n.type is not None and src(n.type) == "ValueError"
+                  and any(isinstance(r, ast.Return) and const_value(r.value) is False for r in ast.walk(n)) for n in ast.walk(f.node))
+    final = any(isinstance(r.value, ast.Compare) and "len(" in src(r.value) and const_value(r.value.comparators[0]) == 0
+                for r in returns_of(f.node) if r.value is not None)
+    counter = any(isinstance(n, ast.Call) and src(n.func).endswith("Counter") for n in ast.walk(f.node))
+    if (len(removes) == 1 and handler and final) or counter:
+        rep.ok("C19.R5", f, "multiset", "remove-loop over a list copy / Counter equality")
+    else:
+        rep.unrec("C19.R5", f, "multiset", "multiset comparison idiom not recognised")
